@@ -229,6 +229,30 @@ def oracle(ops, nodes, order, opcodes):
         v.append(("no-predecessor-before", b.id))
   elif order:
     v.append(("order-nonempty-for-empty-code",))
+  # instruction-level successors (independent of the outgoing sets the implementation built): the jump target of
+  # the first op (SETUP_EXCEPT -> handler) and of the last op, the block_target of the last op and the
+  # fall-through successor of every ORDERED block start a block, and that block is ordered too.  Blocks rebuilt by
+  # the async-for merge (non-contiguous indices / id != first index) are exempt: compute_order skips them.
+  heads = {id(b.code[0]): b for b in nodes if b.code}
+  in_order = {id(b) for b in order}
+  for b in order:
+    if not b.code:
+      continue
+    idxs = [o.index for o in b.code]
+    if b.id != idxs[0] or idxs != list(range(idxs[0], idxs[0] + len(idxs))):
+      continue
+    first, last = b.code[0], b.code[-1]
+    for what, t in (("first-op-target", first.target), ("last-op-target", last.target),
+                    ("last-op-block-target", last.block_target),
+                    ("fall-through", last.next if not last.no_next() else None)):
+      if t is None:
+        continue
+      tb = heads.get(id(t))
+      if tb is None:
+        if what != "fall-through" and cnt[id(t)]:
+          v.append(("successor-not-a-block-start", what, first.name, last.name))
+      elif id(tb) not in in_order:
+        v.append(("successor-block-not-ordered", what, first.name, last.name))
   return v
 
 
@@ -261,12 +285,14 @@ def observe_source(src, filename):
   for k in log:
     del log[k][:]
   try:
-    code = pyc.compile_src(src, filename, (3, 12), None)
-  except pyc.CompileError as e:
-    return [], "compile:" + str(e)[:80]
+    compile(src, filename, "exec")
+  except (SyntaxError, ValueError, OverflowError, RecursionError, MemoryError) as e:
+    return [], "compile:" + str(e)[:80]          # not a compilable program
   try:
+    code = pyc.compile_src(src, filename, (3, 12), None)
     ordered, _ = h["blocks"].process_code(code)
   except Exception as e:  # pylint: disable=broad-except
+    # a compilable program for which pytype builds no block graph at all
     return [], "process_code raised %s: %s" % (type(e).__name__, str(e)[:200])
   if not (len(log["mol"]) == len(log["apbt"]) == len(log["order"])):
     return [], "hooks fired %d/%d/%d times" % (len(log["mol"]), len(log["apbt"]), len(log["order"]))
